@@ -201,7 +201,8 @@ def run_verus_file(uid, gen_text, obls, workdir, timeout=600, rlimit=100):
         res.undecided = "generated file does not compile under Verus: " + (compile_error or p.stderr[-1500:] or "no JSON")[:3000]
         res.obls = obls
         for o in obls:
-            o.status = "undecided"; o.detail = "unit did not compile"
+            if not getattr(o, "pre_decided", False):
+                o.status = "undecided"; o.detail = "unit did not compile"
         return res
     # per-function timing
     times = {}
@@ -222,6 +223,8 @@ def run_verus_file(uid, gen_text, obls, workdir, timeout=600, rlimit=100):
         return res
     unowned = by_obl.get(None, [])
     for o in obls:
+        if getattr(o, "pre_decided", False):
+            continue
         key_main = ("OBL", o.oid)
         key_kf = ("KF", o.oid)
         items = by_obl.get(key_main if o.kind != "kf" else key_kf, [])
